@@ -43,6 +43,10 @@ def corpus():
         {'cfg': {'cache': True, 'freq': 100, 'frac': 2}, 'ops': [['fault', 1, ['create', 0, [[1, 100]]]], ['get', 0, 1]]},
         # open finding: a database error at the clean-up DELETE of a failed subclass insert
         {'inherit': True, 'cfg': {'cache': True}, 'ops': [['icreate', 1, {'name': 1, 'y': None}, 3]]},
+        # open finding: a multi-column set spanning inherited columns is written column by column
+        {'inherit': True, 'cfg': {'cache': True}, 'ops': [['icreate', 2, {'name': 1, 'y': 1}, None], ['iset', 0, {'y': 2, 'x': 'bad'}, None]]},
+        # seeded once: the child's own values must be validated before an inherited column is written
+        {'inherit': True, 'cfg': {'cache': True}, 'ops': [['icreate', 2, {'name': 1, 'y': 1}, None], ['iset', 0, {'x': 2, 'w': 'bad'}, None]]},
         # seeded once: clean-up skipped for validation errors of a child-level column
         {'inherit': True, 'cfg': {'cache': True}, 'ops': [['icreate', 1, {'name': 1, 'y': 'bad'}, None], ['icreate', 2, {'name': 2, 'y': 1, 'w': 'bad'}, None]]},
     ]
@@ -107,6 +111,17 @@ def gen_inherit(rng):
             kw['w'] = rng.choice([None, 1, 'bad'] if rng.random() < 0.4 else [None, 1])
         fault = rng.randint(0, 6) if rng.random() < 0.2 else None
         ops.append(['icreate', lvl, kw, fault])
+        if rng.random() < 0.5:
+            # a multi-column set on some existing object, mixing inherited and own columns, sometimes invalid
+            skw = {}
+            for col in rng.sample(['x', 'y', 'z', 'w'], rng.randint(1, 3)):
+                if col == 'z':
+                    skw[col] = rng.randint(1, max(1, zs[0])) if rng.random() < 0.4 else fresh(zs)
+                elif col == 'y':
+                    skw[col] = rng.choice([0, 1, 2, 3, None, 'bad'])
+                else:
+                    skw[col] = rng.choice([None, 1, 2, 'bad'])
+            ops.append(['iset', rng.randint(0, 9), skw, rng.randint(0, 3) if rng.random() < 0.15 else None])
     return {'inherit': True, 'cfg': {'cache': rng.random() < 0.7}, 'ops': ops}
 
 
@@ -149,14 +164,34 @@ def run_inherit(case):
                                   [k for k, r in list(f.expiredCache.items()) if r() is not None])) if f else [])
         return res
     steps = []
+    made = []      # (level, id) of the objects created so far
     try:
         for op in case['ops']:
-            _, lvl, kw, fault = op
+            kind, lvl, kw, fault = op
+            target_level = None
             before_t, before_c = dump(), cached()
-            state['n'], state['fault'], state['log'] = 0, fault, []
+            state['n'], state['fault'], state['log'] = 0, None, []
             try:
-                o = cls[lvl](**{k: ('zz' if v == 'bad' else v) for k, v in kw.items()})
-                out = ['ret', o.id]
+                if kind == 'iset':
+                    if not made:
+                        steps.append({'out': ['skip'], 'before': before_t, 'after': before_t, 'cached_before': before_c,
+                                      'cached_after': before_c, 'log': []})
+                        continue
+                    tl, tid = made[lvl % len(made)]
+                    target_level = tl
+                    o = cls[tl].get(tid)
+                    names = [c.name for c in o.sqlmeta.columnList] + (['x', 'name'] if tl >= 1 else []) + (['y', 'z'] if tl >= 2 else [])
+                    use = {k: ('zz' if v == 'bad' else v) for k, v in kw.items() if k in names}
+                    before_t, before_c = dump(), cached()
+                    state['n'], state['fault'], state['log'] = 0, fault, []
+                    o.set(**use)
+                    out = ['ret', tid]
+                    target_level = tl
+                else:
+                    state['fault'] = fault
+                    o = cls[lvl](**{k: ('zz' if v == 'bad' else v) for k, v in kw.items()})
+                    out = ['ret', o.id]
+                    made.append((lvl, o.id))
                 del o
             except Exception as e:  # noqa
                 out = ['exc', type(e).__name__]
@@ -164,7 +199,7 @@ def run_inherit(case):
             import gc
             gc.collect()
             steps.append({'out': out, 'before': before_t, 'after': dump(), 'cached_before': before_c, 'cached_after': cached(),
-                          'log': list(state['log'])})
+                          'log': list(state['log']), 'target_level': target_level})
     finally:
         conn._executeRetry = orig
         conn.cache.clear()
@@ -193,8 +228,17 @@ def inherit_failures(case, obs):
     for n, (op, st) in enumerate(zip(case['ops'], obs['isteps'])):
         if st['out'][0] != 'exc':
             continue
-        base = {'step': n, 'op': op, 'raised': st['out'][1], 'kind_of_write': 'inherit-create', 'fault_index': op[3],
-                'statements': st['log']}
+        base = {'step': n, 'op': op, 'raised': st['out'][1], 'kind_of_write': 'inherit-create' if op[0] == 'icreate' else 'inherit-set',
+                'fault_index': op[3], 'statements': st['log']}
+        if op[0] == 'iset':
+            own = {0: ('name', 'x'), 1: ('y', 'z'), 2: ('w',)}.get(st.get('target_level'), ())
+            base['own_value_invalid'] = any(k in own and v == 'bad' for k, v in op[2].items())
+            if st['after'] != st['before']:
+                d = dict(base)
+                d['what'] = 'a multi-column set on an inheritance child raised %s but rows changed: %r -> %r' % (
+                    st['out'][1], st['before'], st['after'])
+                yield d
+            continue
         if st['after'] != st['before']:
             d = dict(base)
             d['what'] = 'creating a %s raised %s but rows were left behind: %r -> %r' % (
@@ -242,11 +286,18 @@ def failures(case, obs):
             ids_before = set(prev['cached'][k][0]) | set(prev['cached'][k][1])
             ids_after = set(st['cached'][k][0]) | set(st['cached'][k][1])
             rows = {r[0] for r in st['tables'][k]}
-            extra = sorted(i for i in (ids_after - ids_before) if True)
+            extra = sorted(ids_after - ids_before)
             if extra:
                 d = dict(base)
                 d['what'] = '%s raised %s but instances got registered in the cache for ids %s of %s (rows present: %s)' % (
                     t, st['out'][1], extra, L.KINDS[k], sorted(rows & set(extra)))
+                yield d
+            lost = sorted(i for i in (ids_before - ids_after)
+                          if any(v is not None and v[0] == k and v[1] == i for v in st['slots']))
+            if lost:
+                d = dict(base)
+                d['what'] = '%s raised %s but the identity map forgot the held instances of %s ids %s (rows still present: %s)' % (
+                    t, st['out'][1], L.KINDS[k], lost, sorted(rows & set(lost)))
                 yield d
 
 
@@ -274,6 +325,11 @@ def classify(case, obs, f):
         # the injected error hit the clean-up DELETE of the parent row after a level's insert had failed
         if k < len(log) and log[k] == 'DELETE':
             return 'inherit_cleanup_fault_leaves_parent'
+    # a multi-column set on an inheritance child hands the inherited columns to the ancestors one by one (each its own
+    # UPDATE) before its own UPDATE: when an inherited value is invalid or the database refuses a later statement, the
+    # earlier columns are already written.  An invalid value for one of the child's OWN columns is still caught first.
+    if f['kind_of_write'] == 'inherit-set' and not f.get('own_value_invalid'):
+        return 'inherit_set_not_atomic'
     return None
 
 
